@@ -28,7 +28,7 @@ theorem headerParser_prefix_inc :
 theorem simpleTypes_ok : ∀ t ∈ simpleTypes, typeOk t = true := by decide
 
 /-- `read_from_buf(header_parser)` over any sequence of views of `bareHead t ++ X` -/
-theorem readFromBuf_bareHead (t : BlockType) (ht : t ∈ simpleTypes) (X : Bytes) (hX : ∀ b ∈ X, b ≠ COLON) :
+theorem readFromBuf_bareHead (t : BlockType) (ht : t ∈ simpleTypes) (X : Bytes) :
     ∀ (chunks : List Bytes) (acc : Bytes), acc.length < (bareHead t).length →
       acc ++ chunks.flatten = bareHead t ++ X →
       readFromBuf headerParser acc chunks = .ok ((t, [], false), X) := by
@@ -73,10 +73,8 @@ theorem readFromBuf_bareHead (t : BlockType) (ht : t ∈ simpleTypes) (X : Bytes
           have := hflat'
           rw [hsplit, List.append_assoc] at this
           exact List.append_cancel_left this
-        have hX1c : ∀ b ∈ (acc ++ c).drop (bareHead t).length, b ≠ COLON := by
-          intro b hb; apply hX; rw [← hX1]; simp [hb]
-        have hp := headerParser_headText [] [LF] [] t [] _ (by simp) (Or.inl rfl) (by simp)
-          (simpleTypes_ok t ht) (by decide) hX1c
+        have hp := headerParser_headText [] [LF] [] t [] ((acc ++ c).drop (bareHead t).length) (by simp) (Or.inl rfl) (by simp)
+          (simpleTypes_ok t ht) (by decide)
         rw [hsplit]
         simp only [bareHead] at hp ⊢
         rw [hp]
@@ -106,9 +104,7 @@ inside the checksum, …), `Dearmor` returns the same result -/
 theorem dearmor_any_chunking_bare (crcCheck : Bool) (t : BlockType) (ht : t ∈ simpleTypes) (d : Bytes)
     (checksum : Bool) (chunks : List Bytes) (hflat : chunks.flatten = armorWrite t [] d checksum) :
     dearmor crcCheck chunks = dearmorResult crcCheck t [] d (writtenCrc d checksum) := by
-  have hX := restText_noColon (armorBody d) _ (armorBody_bodyText d) (writtenCrc d checksum) [[LF]]
-    (by simp [IsNl]) t [LF] (by decide)
-  have hrb := readFromBuf_bareHead t ht _ hX chunks []
+  have hrb := readFromBuf_bareHead t ht _ chunks []
     (by simp [bareHead, headText, DASH5])
     (by rw [List.nil_append, hflat, armorWrite_eq]; rfl)
   exact dearmor_of_header crcCheck chunks t [] false d (armorBody d) (writtenCrc d checksum) [[LF]] [LF] hrb
